@@ -389,6 +389,12 @@ def run(env, res, case, monitors):
                     model = expected
                 if res.fails:
                     break
+            omode = case.get('observe', 'every')
+            last = i == len(case['ops'])
+            if not res.fails and not last and (omode == 'end' and i > 0 or omode == 'sparse' and
+                                               random.Random(f"{case['vseed']}:o{i}").random() < 0.7):
+                res.count('steps_unobserved')      # see hist_array: observation must not refresh caches
+                continue
             if 'model' in monitors:
                 ok = check_model(res, 'live', ra, model, dtype, atom)
                 if ok:
@@ -444,7 +450,8 @@ def history_cases(pid, tier, seed, nlong_quick, nlong_thorough, L_quick=2, L_tho
                 idx += 1
                 yield {'start': {'kind': kind, 'pattern': pat, 'atom': list(atom), 'numtype': nt, 'bo': bo,
                                  'indextype': it, 'md': idx % 5 == 0},
-                       'ops': list(ops), 'vseed': f'{pid}:{seed}:{idx}'}
+                       'ops': list(ops), 'vseed': f'{pid}:{seed}:{idx}',
+                       'observe': 'end' if length > 1 and idx % 3 == 0 else 'every'}
     # create_raggedarray starts are ~1 s each: a sparse sample
     ncreate = 8 if tier == 'quick' else 60
     rng = random.Random(f'{pid}:{seed}:create')
@@ -460,4 +467,5 @@ def history_cases(pid, tier, seed, nlong_quick, nlong_thorough, L_quick=2, L_tho
         yield {'start': {'kind': 'as', 'pattern': rng.choice(list(PATTERNS)), 'atom': list(rng.choice(ATOMS)),
                          'numtype': nt, 'bo': bo, 'indextype': rng.choice(gens.INDEXTYPES[2:]), 'md': k % 3 == 0,
                          'dtypearg': k % 2 == 0},
-               'ops': [rng.choice(allops) for _ in range(rng.randint(4, 25))], 'vseed': f'{pid}:{seed}:L{k}'}
+               'ops': [rng.choice(allops) for _ in range(rng.randint(4, 25))], 'vseed': f'{pid}:{seed}:L{k}',
+               'observe': 'sparse' if k % 2 else 'every'}
